@@ -13,6 +13,9 @@ open PersimVerif.SrcNp PersimVerif.MGH
 theorem getElemOpt_eq_some_getD {l : List Nat} {k : Nat} (h : k < l.length) : l[k]? = some (l.getD k 0) := by
   simp [List.getD, h]
 
+theorem getItem_eq_getElem {α : Type} {l : List α} {k : Nat} (h : k < l.length) : getItem l k = .ok l[k] := by
+  simp [getItem, h]
+
 theorem getItem_of_lt {l : List Nat} {k : Nat} (h : k < l.length) : getItem l k = .ok (l.getD k 0) := by
   simp only [getItem, getElemOpt_eq_some_getD h]
 
